@@ -6,7 +6,8 @@
     F18c (watermark of an empty dataset); [v_cur] is the pinned tree.  Histories [ops] are arbitrary
     interleavings of write batches to any dataset (main, link, dependency; rewiring and deletion are just new
     versions) and job runs (incremental or full sync, any batch size >= 1, optionally with the sink failing at
-    its k-th call).  Join paths are arbitrary lists of hops (any length, any mix of directions, through any
+    its k-th call; a full sync may have a foreign write to a non-main dataset land between two of its pages,
+    [ORunMid]).  Join paths are arbitrary lists of hops (any length, any mix of directions, through any
     datasets); several dependencies may share a dataset.  The completeness theorems assume LatestOnly = false
     (see C18_complete_refuted_latestonly: with LatestOnly even the three repairs are not enough). *)
 From Coq Require Import List ZArith NArith Bool Arith Lia.
@@ -23,7 +24,7 @@ Local Open Scope Z_scope.
     dataset stood at [since]; or it handed over every live main entity (full sync).  This holds after runs
     that were cut short by a failing sink as well. *)
 Theorem C18_tokens_safe : forall v c n ops s tr tk,
-  sound v -> c_latest c = false -> Forall batch_ok ops ->
+  sound v -> c_latest c = false -> Forall (batch_ok c) ops ->
   exec v c (init_state n) ops = (s, tr) -> s_job s = Some tk ->
   forall dp, In dp (c_deps c) -> forall p, 0 <= p < dtok tk (d_ds dp) -> covered c n tr dp p.
 Proof. exact tokens_safe. Qed.
@@ -33,7 +34,7 @@ Print Assumptions C18_tokens_safe.
     of every dependency dataset has been handled in the above sense - for all graphs, join shapes, histories,
     batch sizes and run schedules. *)
 Theorem C18_complete : forall v c n ops s tr,
-  sound v -> c_latest c = false -> Forall batch_ok ops ->
+  sound v -> c_latest c = false -> Forall (batch_ok c) ops ->
   exec v c (init_state n) ops = (s, tr) -> caught_up c s ->
   forall dp, In dp (c_deps c) -> forall p, 0 <= p < lenz (feed_of (s_hub s) (d_ds dp)) -> covered c n tr dp p.
 Proof. exact complete. Qed.
@@ -163,7 +164,7 @@ Example C18_fixed_latestonly : In 1%N (ents_of (skipn 7 (snd (exec v_fixed c_d (
 Proof. vm_compute; tauto. Qed.
 (** the hypotheses of C18_complete are met by a concrete history: sound variant, caught up, a covered change *)
 Example C18_complete_nonvacuous :
-  sound v_fixed /\ c_latest c_a = false /\ Forall batch_ok ops_a
+  sound v_fixed /\ c_latest c_a = false /\ Forall (batch_ok c_a) ops_a
   /\ caught_up c_a (fst (exec v_fixed c_a (init_state 2) ops_a))
   /\ required c_a (s_hub (fst (exec v_fixed c_a (init_state 2) ops_a))) (mkDep 1 [mkJoin 0 2 false]) 1 11 2.
 Proof.
@@ -171,6 +172,20 @@ Proof.
   - eexists. split; [vm_compute; reflexivity|]. intros dp [<-|[<-|[]]]; vm_compute; reflexivity.
   - split; [|vm_compute; reflexivity]. right. unfold connected_prev. cbn [d_joins c_a]. split; [reflexivity|]. split; [lia|].
     exists 2%N. split; [|reflexivity]. exists 1%nat. split; [now left|]. cbn [j_inv]. triple.
+Qed.
+(** a dependency write that lands between two pages of a full sync is not jumped over: the watermark was taken
+    when the full sync started, so the next incremental run re-emits the main entity the first page had
+    already delivered *)
+Example C18_write_during_fullsync :
+  let c := mkCfg 0 [mkDep 1 [mkJoin 0 1 true]] false in
+  let ops := [OAppend 0 [w 1 [(1, 11)] false; w 2 [] false; w 3 [] false]; OAppend 1 [w 11 [] false];
+              ORunMid 1 None 0 0 1 [w 11 [] false]; run 1; run 1]%N in
+  Forall (batch_ok c) ops
+  /\ (exists tk, s_job (fst (exec v_fixed c (init_state 2) ops)) = Some tk /\ dtok tk 1 = 2)
+  /\ In 1%N (ents_of (skipn 7 (snd (exec v_fixed c (init_state 2) ops)))).
+Proof.
+  cbn zeta. split; [repeat constructor; discriminate|]. split; [eexists; split; vm_compute; reflexivity|].
+  vm_compute. tauto.
 Qed.
 (** a three-hop path with mixed directions is followed by the walk *)
 Example C18_three_hops :
